@@ -119,7 +119,7 @@ func checkParse(text string, failAt int) (reductions int, err error) {
 	var rerr error
 	perr = rec.Guard(func() {
 		var p *ebnf.Parser
-		p, rerr = ebnf.New("t.ebnf", strings.NewReader(text))
+		p, rerr = ebnf.New("t.ebnf", ref.Source(text))
 		if rerr != nil {
 			return
 		}
@@ -205,7 +205,7 @@ func checkBrokenTailFailing(text string, k int, tail string, lexical bool, failA
 	var rerr error
 	if perr := rec.Guard(func() {
 		var p *ebnf.Parser
-		p, rerr = ebnf.New("t.ebnf", strings.NewReader(broken))
+		p, rerr = ebnf.New("t.ebnf", ref.Source(broken))
 		if rerr != nil {
 			return
 		}
@@ -254,7 +254,7 @@ func checkBrokenTailFailing(text string, k int, tail string, lexical bool, failA
 		calls := 0
 		var eerr error
 		if perr := rec.Guard(func() {
-			p, err := ebnf.New("t.ebnf", strings.NewReader(broken))
+			p, err := ebnf.New("t.ebnf", ref.Source(broken))
 			if err != nil {
 				eerr = err
 				return
@@ -324,7 +324,7 @@ func oneSided(text string, e *expectation, failAt int) error {
 	var rerr error
 	if perr := rec.Guard(func() {
 		var p *ebnf.Parser
-		if p, rerr = ebnf.New("t.ebnf", strings.NewReader(text)); rerr != nil {
+		if p, rerr = ebnf.New("t.ebnf", ref.Source(text)); rerr != nil {
 			return
 		}
 		rerr = p.Parse(nil, func(i int) error {
@@ -352,7 +352,7 @@ func oneSided(text string, e *expectation, failAt int) error {
 	nTok := 0
 	if perr := rec.Guard(func() {
 		var p *ebnf.Parser
-		if p, rerr = ebnf.New("t.ebnf", strings.NewReader(text)); rerr != nil {
+		if p, rerr = ebnf.New("t.ebnf", ref.Source(text)); rerr != nil {
 			return
 		}
 		rerr = p.Parse(func(tok *lexer.Token) error { nTok++; return nil }, nil)
@@ -430,7 +430,7 @@ func checkEvaluate(text string, failAt int) error {
 	var rerr error
 	perr := rec.Guard(func() {
 		var p *ebnf.Parser
-		p, rerr = ebnf.New("t.ebnf", strings.NewReader(text))
+		p, rerr = ebnf.New("t.ebnf", ref.Source(text))
 		if rerr != nil {
 			return
 		}
